@@ -3,8 +3,10 @@ package main
 import (
 	"bytes"
 	"fmt"
+	"hash/fnv"
 	"io"
 	"os"
+	"path"
 	"path/filepath"
 	"strings"
 
@@ -39,10 +41,20 @@ func init() {
 
 type filtLevel struct {
 	Inc, Exc, Follow []string
+	MapDrop          bool
 }
 
+func c11Drop(salt uint64, p string) bool {
+	h := fnv.New64a()
+	fmt.Fprintf(h, "%d|%s", salt, p)
+	return h.Sum64()%4 == 0
+}
+
+// opaqueFS hides the concrete type of the FS it wraps (a caller's own wrapper).
+type opaqueFS struct{ fsutil.FS }
+
 // refLevel applies one filter level to a listing (items in order).
-func refLevel(items []refs.Item, lv filtLevel, inc []string, incremental bool) ([]refs.Item, error) {
+func refLevel(items []refs.Item, lv filtLevel, inc []string, incremental bool, drop func(it refs.Item) bool) ([]refs.Item, error) {
 	var sel map[string]bool
 	var err error
 	if incremental {
@@ -52,6 +64,15 @@ func refLevel(items []refs.Item, lv filtLevel, inc []string, incremental bool) (
 	}
 	if err != nil {
 		return nil, err
+	}
+	if drop != nil {
+		// entries a map function drops are not reported and do not pull in
+		// their ancestors
+		for _, it := range items {
+			if sel[it.Path] && drop(it) {
+				delete(sel, it.Path)
+			}
+		}
 	}
 	keep := map[string]bool{}
 	for _, p := range refs.WithAncestors(items, sel) {
@@ -90,6 +111,7 @@ func c11Run(c *core.Ctx) *core.Result {
 		r.Inconclusive = err.Error()
 		return r
 	}
+	mapDropped := map[string]bool{}
 	nlevels := R.Weighted([]int{6, 3, 1}) + 1
 	var levels []filtLevel
 	var view fsutil.FS = base
@@ -121,6 +143,18 @@ func c11Run(c *core.Ctx) *core.Result {
 			}
 		}
 		opt := &fsutil.FilterOpt{IncludePatterns: lv.Inc, ExcludePatterns: lv.Exc, FollowPaths: lv.Follow}
+		var mapSalt uint64
+		if R.P(1, 4) {
+			// a map function that drops some non-directories (it still stats them)
+			mapSalt = R.U64() | 1
+			lv.MapDrop = true
+			opt.Map = func(p string, st *types.Stat) fsutil.MapResult {
+				if !st.IsDir() && c11Drop(mapSalt, p) {
+					return fsutil.MapResultExclude
+				}
+				return fsutil.MapResultKeep
+			}
+		}
 		inc := lv.Inc
 		if lv.Follow != nil {
 			tg, err := fsutil.FollowLinks(view, lv.Follow)
@@ -131,7 +165,17 @@ func c11Run(c *core.Ctx) *core.Result {
 			inc = tg
 		}
 		nv, err := fsutil.NewFilterFS(view, opt)
-		nn, e1 := refLevel(itemsN, lv, inc, false)
+		var dropFn func(it refs.Item) bool
+		if mapSalt != 0 {
+			dropFn = func(it refs.Item) bool {
+				if !it.IsDir && c11Drop(mapSalt, it.Path) {
+					mapDropped[it.Path] = true
+					return true
+				}
+				return false
+			}
+		}
+		nn, e1 := refLevel(itemsN, lv, inc, false, dropFn)
 		if e1 != nil {
 			if err == nil {
 				r.Violate("filter-badpattern", "patterns %q/%q are invalid (%v) but NewFilterFS accepted them", lv.Inc, lv.Exc, e1)
@@ -143,7 +187,7 @@ func c11Run(c *core.Ctx) *core.Result {
 			r.Violate("filter-error", "NewFilterFS failed for valid patterns %q/%q: %v", lv.Inc, lv.Exc, err)
 			return r
 		}
-		ni, _ := refLevel(itemsI, lv, inc, true)
+		ni, _ := refLevel(itemsI, lv, inc, true, dropFn)
 		itemsN, itemsI = nn, ni
 		view = nv
 		levels = append(levels, lv)
@@ -153,13 +197,33 @@ func c11Run(c *core.Ctx) *core.Result {
 		r.FP = fmt.Sprintf("invalid %v", levels)
 		return r
 	}
-	sample := map[string]any{"tree": trunc(snap.Lines(), 30), "filters": levels}
+	// the filter stack may sit below something that is not a filter: a
+	// SubDirFS (build-context shape) or a caller's own wrapper
+	wrap := core.Pick(R, []string{"none", "none", "subdir", "opaque"})
+	pfx := ""
+	switch wrap {
+	case "subdir":
+		sfs, err := fsutil.SubDirFS([]fsutil.Dir{{FS: view, Stat: &types.Stat{Path: "sub", Mode: uint32(os.ModeDir | 0755), ModTime: 77}}})
+		if err != nil {
+			r.Inconclusive = err.Error()
+			return r
+		}
+		view = sfs
+		pfx = "sub/"
+	case "opaque":
+		view = opaqueFS{view}
+	}
+	r.AddSet("wrappers", wrap)
+	sample := map[string]any{"tree": trunc(snap.Lines(), 30), "filters": levels, "wrapper": wrap}
 	r.Sample = sample
 	r.FP = snap.Fingerprint() + fmt.Sprintf("%v", levels)
 	pathsOf := func(items []refs.Item) []string {
 		var ps []string
+		if pfx != "" {
+			ps = append(ps, "sub")
+		}
 		for _, it := range items {
-			ps = append(ps, it.Path)
+			ps = append(ps, pfx+it.Path)
 		}
 		return ps
 	}
@@ -170,11 +234,20 @@ func c11Run(c *core.Ctx) *core.Result {
 	mkView := func(paths []string) *tree.Tree {
 		v := &tree.Tree{}
 		for _, p := range paths {
-			if e := snap.Get(p); e != nil {
+			if e := snap.Get(strings.TrimPrefix(p, pfx)); e != nil && p != "sub" || (pfx == "" && e != nil) {
 				v.Entries = append(v.Entries, e.Clone())
 			}
 		}
 		regroup(v)
+		if pfx != "" {
+			v = &tree.Tree{Entries: prefixed(v.Entries, "sub", tree.Entry{Path: "sub", Type: tree.Dir, Perm: 0755, Mtime: 77})}
+			for i := range v.Entries {
+				// SubDirFS re-roots absolute symlink targets below the sub-root
+				if e := &v.Entries[i]; e.Type == tree.Symlink && strings.HasPrefix(e.Target, "/") {
+					e.Target = path.Join("/sub", e.Target)
+				}
+			}
+		}
 		return v
 	}
 	expView := mkView(naivePaths)
@@ -271,7 +344,7 @@ func c11Run(c *core.Ctx) *core.Result {
 		if e.Type != tree.File {
 			continue
 		}
-		rc, err := view.Open(e.Path)
+		rc, err := view.Open(pfx + e.Path)
 		var data []byte
 		if err == nil {
 			data, _ = io.ReadAll(rc)
@@ -279,16 +352,21 @@ func c11Run(c *core.Ctx) *core.Result {
 		}
 		r.Count("opens_checked", 1)
 		switch {
-		case listed[e.Path] && err != nil:
-			if k1 && !naiveSet[e.Path] {
+		case listed[pfx+e.Path] && err != nil:
+			if k1 && !naiveSet[pfx+e.Path] {
 				r.ViolateD("K1-patternmatcher-parent-memo", det, "walk reports %q but Open hides it (walk and open use different matcher entry points; patternmatcher parent memo)", e.Path)
 			} else {
 				r.ViolateD("open-hidden-listed", det, "%q is reported by the filtered walk but cannot be opened through the same view: %v", e.Path, err)
 			}
-		case listed[e.Path] && !bytes.Equal(data, e.Data):
+		case listed[pfx+e.Path] && !bytes.Equal(data, e.Data):
 			r.ViolateD("open-wrong-bytes", det, "%q opened through the view yields %d bytes, the file has %d", e.Path, len(data), len(e.Data))
-		case !listed[e.Path] && err == nil:
-			if k1 && naiveSet[e.Path] {
+		case !listed[pfx+e.Path] && err == nil:
+			if mapDropped[e.Path] {
+				// dropped by a map function, not by include/exclude patterns:
+				// C11's quantifier does not cover map functions, Open only
+				// consults the patterns; counted, not demanded
+				r.Count("map_dropped_files_still_openable_diagnostic", 1)
+			} else if k1 && naiveSet[pfx+e.Path] {
 				r.ViolateD("K1-patternmatcher-parent-memo", det, "walk hides %q but Open serves it (patternmatcher parent memo)", e.Path)
 			} else {
 				r.ViolateD("open-serves-hidden", det, "%q is hidden by the filter but can be opened through the view", e.Path)
@@ -298,7 +376,7 @@ func c11Run(c *core.Ctx) *core.Result {
 	// non-trivial?
 	hiddenMember := false
 	for _, e := range snap.Entries {
-		if g := snap.GroupOf(e.Path); g != "" && !listed[e.Path] {
+		if g := snap.GroupOf(e.Path); g != "" && !listed[pfx+e.Path] {
 			hiddenMember = true
 		}
 	}
